@@ -4,6 +4,7 @@ import (
 	"bufio"
 	"context"
 	"encoding/json"
+	"errors"
 	"fmt"
 	"os"
 	"strconv"
@@ -120,6 +121,16 @@ func BuildCreation(in CInst, calls *int32) (ro.Observable[any], error) {
 		return ro.Defer(func() ro.Observable[any] { atomic.AddInt32(calls, 1); return ro.Of(anys(a)...) }), nil
 	case "DeferThrow":
 		return ro.Defer(func() ro.Observable[any] { atomic.AddInt32(calls, 1); return ro.Throw[any](cat.ErrSrc[a[0]]) }), nil
+	case "SyncPanickingTeardown":
+		return ro.NewUnsafeObservableWithContext(func(ctx context.Context, d ro.Observer[any]) ro.Teardown {
+			for _, v := range a {
+				d.NextWithContext(ctx, any(v))
+			}
+			d.CompleteWithContext(ctx)
+			return func() { atomic.AddInt32(calls, 1); panic(errors.New("verif: this teardown panics")) }
+		}), nil
+	case "OfPanickingFinalizer":
+		return ro.TapOnFinalize[any](func() { atomic.AddInt32(calls, 1); panic(errors.New("verif: this finalizer panics")) })(ro.Of(anys(a)...)), nil
 	case "Future":
 		return ro.Future(func() (any, error) { atomic.AddInt32(calls, 1); return any(a[0]), nil }), nil
 	case "FutureErr":
